@@ -54,12 +54,14 @@ type CountingStore struct {
 	innerMu sync.RWMutex
 	inner   filer.FilerStore
 
-	total    int64
-	budget   int64
-	used     int64
-	exceeded int32
-	mu       sync.Mutex
-	byKind   map[string]int64
+	total     int64
+	budget    int64
+	used      int64
+	exceeded  int32
+	mu        sync.Mutex
+	byKind    map[string]int64
+	faults    map[string]int
+	faultsHit int
 }
 
 const hardFactor = 50
@@ -82,10 +84,39 @@ func (c *CountingStore) SetInner(s filer.FilerStore) {
 	c.innerMu.Unlock()
 }
 
+// ErrInjectedFault is the error of a store call failed on purpose (InjectFault).
+var ErrInjectedFault = errors.New("verif: injected store fault")
+
+// InjectFault makes the next n calls of the named store method (insert, update, find, delete,
+// deleteFolderChildren, list, prefixList, kvput, kvget, kvdelete, begin, commit) fail.
+func (c *CountingStore) InjectFault(kind string, n int) {
+	c.mu.Lock()
+	if c.faults == nil {
+		c.faults = make(map[string]int)
+	}
+	c.faults[kind] = n
+	c.mu.Unlock()
+}
+
+// ClearFaults removes pending faults and returns how many injected faults were hit since the last call.
+func (c *CountingStore) ClearFaults() (hit int) {
+	c.mu.Lock()
+	c.faults = nil
+	hit, c.faultsHit = c.faultsHit, 0
+	c.mu.Unlock()
+	return
+}
+
 func (c *CountingStore) step(kind string) error {
 	atomic.AddInt64(&c.total, 1)
 	c.mu.Lock()
 	c.byKind[kind]++
+	if c.faults[kind] > 0 {
+		c.faults[kind]--
+		c.faultsHit++
+		c.mu.Unlock()
+		return ErrInjectedFault
+	}
 	c.mu.Unlock()
 	b := atomic.LoadInt64(&c.budget)
 	if b <= 0 {
@@ -231,10 +262,10 @@ func (c *CountingStore) CanDropWholeBucket() bool {
 
 type mapConfig map[string]string
 
-func (m mapConfig) GetString(key string) string           { return m[key] }
-func (m mapConfig) GetBool(key string) bool               { return m[key] == "true" }
-func (m mapConfig) GetInt(key string) int                 { return 0 }
-func (m mapConfig) GetStringSlice(key string) []string    { return nil }
+func (m mapConfig) GetString(key string) string          { return m[key] }
+func (m mapConfig) GetBool(key string) bool              { return m[key] == "true" }
+func (m mapConfig) GetInt(key string) int                { return 0 }
+func (m mapConfig) GetStringSlice(key string) []string   { return nil }
 func (m mapConfig) SetDefault(key string, v interface{}) {}
 
 // ---------------------------------------------------------------------------
